@@ -38,6 +38,7 @@ def run(program, res, tier):
     c05._s2(program, r1, [d])
     c05._s4_slice_contract(program, Relabel(res, {"*": "C02-S1"}))
     c05.sql_division_rule(program, res, d, "C02-S1")
+    c05.sql_modulo_tables(program, res, rule="C02-S1", dialects={"PostgreSQLModel"})
     c05._require_decided(res)
     # configuration constants of the dialect
     cte = d.const_kwarg("supports_cte_elim")
